@@ -323,7 +323,7 @@ func genOpts() (ps.GenOpts, ps.ValOpts) {
 }
 
 func TestWire(t *testing.T) {
-	evid.Check(t, "Wire", 10000, func(rt *rapid.T) {
+	evid.Check(t, "Wire", 5000, func(rt *rapid.T) {
 		gopt, vopt := genOpts()
 		s, gst := ps.GenSchema(rt, gopt)
 		for i := 0; i < gst.CappedNums; i++ {
@@ -337,7 +337,13 @@ func TestWire(t *testing.T) {
 			rt.Fatalf("harness: %v", err)
 		}
 		c := Case{Schema: s}
-		nItems := rapid.IntRange(1, 6).Draw(rt, "nitems")
+		// several values per type: building the Go type, the descriptor and the
+		// library's codec cache (copy-on-write, quadratic) dominates the cost
+		lo, hi := 2, 8
+		if evid.Thorough() {
+			lo, hi = 6, 24
+		}
+		nItems := rapid.IntRange(lo, hi).Draw(rt, "nitems")
 		noBoolWiden := evid.KnownActive(clsBoolVarint)
 		type meta struct {
 			st []ps.TxStats
